@@ -798,7 +798,7 @@ func TestC13Structured(t *testing.T) {
 					if at := core.OneOf(c, "own-hello.point", "", "instance.Identity", "instance.Identity", "instance.Identity", "instance.State", "instance.State", "instance.Config"); at == "" {
 						w.V.Gate.Arm(c.Int("own-hello.any-call", 0, 12))
 					} else {
-						w.V.Gate.ArmAt(at, c.Int("own-hello.call", 0, 4))
+						w.V.Gate.ArmAt(at, c.Uniform("own-hello.call", 0, 5))
 					}
 					i := c.Pick("own-hello.first", len(answers))
 					j := c.Pick("own-hello.second", len(answers)-1)
